@@ -9,7 +9,8 @@ ImageCases.tla: Image / MaskedImage / BooleanImage (shapes, channels, dtypes, ma
 from ._cases import run_families
 
 FAM = [("transforms", "TransCases", "MC_TransCases_c05.cfg", "MC_TransCases_c05.cfg", "transcases", False),
-       ("shapes", "ShapeCases", "MC_ShapeCases_c05.cfg", "MC_ShapeCases_c05.cfg", "shapes", False)]
+       ("shapes", "ShapeCases", "MC_ShapeCases_c05.cfg", "MC_ShapeCases_c05.cfg", "shapes", False),
+       ("images", "MC_ImageCases", "MC_ImageCases_c05.cfg", "MC_ImageCases_c05.cfg", "images", False)]
 
 
 def run(chk, tier, seed, replay):
